@@ -41,8 +41,9 @@ def encode(settings, terminator=True, pad_to=None, pad_byte=b"\x00") -> bytes:
     return out
 
 
-def decode(block: bytes):
-    """Reference decoder: list of (index, type, length, value) in on-disk order.
+def decode(block: bytes, with_end=False):
+    """Reference decoder: list of (index, type, length, value) in on-disk order (with_end: also the offset just
+    after the terminator, or None when decoding stopped for another reason).
 
     Stops at a zero index or when a full record can no longer be read (end of data).  Implements the one
     documented edge: a User-Agent (index 9) of length 0x80 holding 128 non-NUL bytes continues up to (not
@@ -51,8 +52,10 @@ def decode(block: bytes):
     out = []
     pos = 0
     n = len(block)
+    end_pos = None
     while True:
         if block[pos : pos + 2] == b"\x00\x00":
+            end_pos = pos + 2
             break
         if pos + 6 > n:
             break
@@ -69,7 +72,7 @@ def decode(block: bytes):
             value += block[pos:end]
             pos = end
         out.append((index, typ, length, value))
-    return out
+    return (out, end_pos) if with_end else out
 
 
 _TABLES = [bytes(i ^ k for i in range(256)) for k in range(256)]
